@@ -10,7 +10,7 @@ RATES = [64.0, 128.0, 256.0, 1000.0, 4000.0]
 
 RULE = ("Cases: (consistency) methods {hilbert,nht,quad} x sample rates {64..4000} x smooth_phase in {default, 3, 31, None, 0} x smooth in-band AM-FM inputs with "
         "1-3 columns; (sinusoid) pure cosines with >=6 cycles per record, f <= sr/12, amplitude over 3 decades, start "
-        "phase in [0,2pi); (roundtrip) frequency profiles {constant, ramp, sinusoidally modulated, random smooth} in 1-3 "
+        "phase in [0,2pi); (lattice, enumerated) cosines with a whole number P of samples per cycle (12..60 quick, 12..240 thorough) and peaks on samples - for odd P every trough lies between two exactly equal samples - x 4 shifts x 3 amplitudes x methods, checked pointwise (quad: 10% IF, 2% IA, 0.05 rad); (roundtrip) frequency profiles {constant, ramp, sinusoidally modulated, random smooth} in 1-3 "
         "columns through phase_from_freq -> freq_from_phase; (scale) x -> c*x for c=2^k (|k|<=8) and real c in "
         "[1e-3,1e3], plus amplitude_normalise sign/scale invariance; (stack) 3-D [samples x imfs x imfs2] input vs its 2-D slices; (reuse) one array object filled with two IMF sets in turn; (columns) 2-4 column sets, optionally with one non-oscillating column (constant / ramp / zero / single bump) and in C / column-major / strided layout, vs each column alone. Oracle: shapes; 0<=IP<=2pi (exact 2pi counted); "
         "IF == sr*gradient(unwrap(IP))/2pi (1e-6 rel); interior-half medians |IF-f|/f, |IA-A|/A, circular |IP-truth| "
@@ -142,6 +142,54 @@ def oracle_sin(case, rec):
                                 'err %.4g > %.4g (f=%.5g sr=%g A=%.4g n=%d col %d)' % (v, tl, fc, sr, Ac, n, c))
     rec.cls('method=' + m)
     rec.cls('tolratio<%s' % ('0.34' if worst < 0.34 else '0.67' if worst < 0.67 else '1'))
+    return True
+
+
+def lattice_cosine(P, ncyc, shift):
+    """A cosine with exactly P samples per cycle and its peaks on samples; the second half of each cycle mirrors the first
+    bit for bit, so for odd P every trough lies between two exactly equal samples (and for even P on a sample)."""
+    c = np.cos(TWO_PI * np.arange(P) / P)
+    for j in range(1, (P + 1) // 2):
+        c[P - j] = c[j]
+    return np.roll(np.tile(c, ncyc), shift)
+
+
+LATTICE_TOL = {'hilbert': (0.12, 0.12, 0.15), 'nht': (0.12, 0.12, 0.15), 'quad': (0.10, 0.02, 0.05)}
+
+
+def enum_lattice(tier):
+    periods = list(range(12, 61)) if tier == 'quick' else list(range(12, 241))
+    for P in periods:
+        for shift in sorted({0, 1, P // 3, P // 2}):
+            for m in METHODS:
+                for logA in (0.0, -1.5, 1.5):
+                    for sr, smooth in ((64.0, 'default'), (1000.0, None), (256.0, 3)):
+                        yield {'P': P, 'shift': shift, 'method': m, 'logA': logA, 'sr': sr, 'smooth': smooth,
+                               'ncyc': 8 + P % 5}
+
+
+def oracle_lattice(case, rec):
+    """Sample-aligned sinusoids (whole number of samples per cycle, peaks on samples): the interior estimates are checked
+    pointwise for every method - for these inputs the quadrature method has no peak-location error to excuse it."""
+    import emd
+    P, m, sr = case['P'], case['method'], case['sr']
+    A = 10 ** case['logA']
+    x = A * lattice_cosine(P, case['ncyc'], case['shift'])
+    n = x.size
+    IP, IF, IA = ft(emd, x.copy(), sr, m, 'lattice', case['smooth'])
+    if IP.shape != (n, 1) or IF.shape != (n, 1) or IA.shape != (n, 1):
+        raise Violation('C09/lattice/shape/' + m, '')
+    f = sr / P
+    tp = np.mod(TWO_PI * (np.arange(n) - case['shift']) / P + np.pi / 2, TWO_PI)
+    sl = slice(n // 4, 3 * n // 4)
+    errs = (np.abs(IF[sl, 0] - f).max() / f, np.abs(IA[sl, 0] - A).max() / A,
+            np.abs(np.angle(np.exp(1j * (IP[sl, 0] - tp[sl])))).max())
+    for v, tl, nm in zip(errs, LATTICE_TOL[m], ('IF-pointwise', 'IA-pointwise', 'IP-pointwise')):
+        if not (v <= tl):
+            raise Violation('C09/lattice/%s/%s/%s' % (nm, m, 'odd-period' if P % 2 else 'even-period'),
+                            'err %.4g > %.4g (P=%d shift=%d sr=%g A=%.4g n=%d)' % (v, tl, P, case['shift'], sr, A, n))
+    rec.cls('method=' + m)
+    rec.cls('odd-period' if P % 2 else 'even-period')
     return True
 
 
@@ -376,6 +424,8 @@ CLAUSES = [
            nt_rule='>=2 columns or non-zero AM/FM depth'),
     Clause('C09.sinusoid', oracle_sin, strategy=sin_case(), quick=1200, thorough=30000, shards=(4, 16),
            nt_rule='>=6 cycles in the record'),
+    Clause('C09.lattice', oracle_lattice, enumerate=enum_lattice, quick=None, thorough=None, shards=(8, 16), exhaustive=True,
+           nt_rule='every evaluated sample-aligned sinusoid'),
     Clause('C09.roundtrip', oracle_rt, strategy=rt_case(), quick=2000, thorough=40000, shards=(2, 8),
            nt_rule='non-constant frequency profile'),
     Clause('C09.scale', oracle_scale, strategy=scale_case(), quick=800, thorough=20000, shards=(4, 16),
